@@ -220,10 +220,12 @@ func (c *Client) matchSettlementProposal(ctx context.Context, a, b interface{}) 
 		}
 	}
 
-	// Close channel and remove from persistence.
-	err = virtual.Close()
-	if err != nil {
-		return false
+	// Close channel and remove from persistence. The parent updates have been
+	// accepted at this point, so the settlement has to be completed even if
+	// closing reports an error (e.g., unexpected messages left in the channel's
+	// cache).
+	if cerr := virtual.Close(); cerr != nil {
+		c.log.Warnf("closing virtual channel: %v", cerr)
 	}
 	c.channels.Delete(virtual.ID())
 	err = virtual.machine.SetWithdrawn(ctx)
